@@ -367,7 +367,23 @@ func H_TB_rec(t *verifrt.T) {
 		// acyclic values nested beyond the depth at which cycle detection starts (1000 frames):
 		// a recursive struct list and nested []interface{}; encoding must still succeed
 		const n = 1003
-		if t.Choice("deep-kind", 2) == 0 {
+		dk := t.Choice("deep-kind", 3)
+		if dk == 2 {
+			// a value reached twice (a DAG, not a cycle) below the depth at which cycle detection
+			// starts: nil interfaces inside it must not be taken for a cycle
+			leaf := &vtDagLeaf{}
+			root := &vtDagNode{}
+			cur := root
+			for i := 0; i < n; i++ {
+				cur.Next = &vtDagNode{}
+				cur = cur.Next
+			}
+			cur.Items = []*vtDagLeaf{leaf, leaf}
+			out, err := Marshal(root)
+			t.Assert("very-deep-dag-encodes", verifrt.And(err == nil, len(out) > 2*n))
+			return
+		}
+		if dk == 0 {
 			l := &vtList{V: 1}
 			for i := 0; i < n; i++ {
 				l = &vtList{V: 2, Next: l}
@@ -392,6 +408,12 @@ func H_TB_rec(t *verifrt.T) {
 		return
 	}
 	checkMarshal(t, head, refRec(nil, head))
+}
+
+type vtDagLeaf struct{ V interface{} }
+type vtDagNode struct {
+	Next  *vtDagNode
+	Items []*vtDagLeaf
 }
 
 // ---------------------------------------------------------------- interface members
